@@ -28,12 +28,18 @@ CHECKS = {
  "C10": ("model_checking", "explicit-state BFS on the real code; whole-object snapshot equality on every refused transition",
          "Every throwing transition met by the mutator, precondition and parameter alphabets (including partly-invalid arguments) must leave the full snapshot (header, parameters, frames, caller frames, aliasing) identical.",
          "rides on the alphabets of C05/C07/C09", "§3 C10", "api"),
+ "C13": ("model_checking", "explicit-state BFS on the real code built with ASan/UBSan/_GLIBCXX_ASSERTIONS; sanitizer is the oracle on every transition, probe and destructor",
+         "The six engine-A alphabets (mutators, frames/registers, preconditions, parameters, look-ups, construction) are re-explored with the address/undefined sanitizers and libstdc++ assertions; every distinct state is additionally printed, saved, reloaded and destroyed; recoverable reports are attributed to the transition, fatal ones through the worker breadcrumb.",
+         "ASan-invisible errors (intra-object overflow) out of reach; file-space inputs are covered by C02/C04/C16 runs", "§3 C13", "api"),
+ "C14": ("model_checking", "explicit-state BFS on the real code; per-state save/save probe, three-process MALLOC_PERTURB_ digest join, memcheck pass",
+         "In every reachable state the object is snapshotted, saved twice and snapshotted again (purity, repeatability); the exploration is repeated in three processes whose fresh heap bytes differ (MALLOC_PERTURB_ unset/0x55/0xAA) and the per-state file digests are joined on the state key; a shallower exploration runs entirely under valgrind memcheck and counts errors around each save.",
+         "stack-sourced garbage is visible only to the memcheck pass (depth 1 quick / 2 thorough)", "§3 C14", "api"),
  "C11": ("model_checking", "explicit-state BFS on the real code + exhaustive look-up sweep in every state",
          "In every distinct state every positional accessor is called with {0..size-1,size,size+1,2^32,2^64-1} and every by-name accessor with {present, absent, case variant, padded, empty}; typed getters on every parameter; trailing-space naming clause on every naming call.",
          "container sizes bounded by the shape guards", "§3 C11", "api"),
 }
 NOT_YET = {}
-TODO = ["C02", "C04", "C12", "C13", "C14", "C15", "C16", "C17", "C18", "C19"]
+TODO = ["C02", "C04", "C12", "C15", "C16", "C17", "C18", "C19"]
 
 def main():
     checks = []
